@@ -14,6 +14,8 @@ import Driver.LaneChk
 import Driver.RootChk
 import Driver.GroupChk
 import Driver.SemaChk
+import Driver.OnceChk
+import Driver.ApplyChk
 /-! `dvdriver`: line-protocol driver over the Lean models — the same definitions the theorems are about.
     One operation per line in, one canonical result per line out; the C harnesses answer the same lines with
     the real library and the check diffs the two streams. -/
@@ -235,4 +237,6 @@ def main (args : List String) : IO UInt32 := do
   | "root" :: paths => RootChk.main paths
   | "group" :: paths => GroupChk.main paths
   | "sema" :: paths => SemaChk.main paths
+  | "once" :: paths => OnceChk.main paths
+  | "apply" :: paths => ApplyChk.main paths
   | _ => loop (← IO.getStdin) (← IO.getStdout); return 0
